@@ -851,16 +851,16 @@ def py_member(o, v):
 # universe of run-time objects
 
 def universe_objects():
-    objs = [("none",), ("bool", True), ("bool", False), ("int", 0), ("int", 1), ("int", -1), ("int", 2),
-            ("float", 0), ("float", 3), ("float", 2), ("str", ""), ("str", "a"), ("str", "ab")]
-    objs += [("inst", c, k) for (c, k) in U.INSTANCES]
+    objs = [("none",), ("bool", True), ("bool", False), ("int", 0), ("int", 1), ("int", 2),
+            ("float", 0), ("float", 3), ("str", ""), ("str", "a"), ("str", "ab")]
+    objs += [("inst", c, k) for (c, k) in U.INSTANCES if (c, k) != ("A", 1)]
     objs += [("enum", c, i) for c in U.ENUM_MEMBERS for i in range(2)]
-    objs += [("class", c) for c in U.CLS_ORDER if c not in ("Sequence", "Mapping")]
+    objs += [("class", c) for c in U.CLS_ORDER if c not in ("Sequence", "Mapping", "complex", "str", "tuple", "NoneType", "Falsy", "list", "dict")]
     objs += [("list", ()), ("list", (("int", 1),)), ("list", (("int", 1), ("str", "a"))), ("list", (("str", "a"), ("int", 1), ("int", 2))),
              ("dict", ()), ("dict", ((("str", "a"), ("int", 1)),)), ("dict", ((("str", "a"), ("int", 1)), (("str", "b"), ("none",)))),
              ("tuple", (("str", "a"), ("int", 1))), ("tuple", (("int", 1), ("str", "a"), ("none",)))]
     objs += [("tuple", ()), ("tuple", (("int", 1),)), ("tuple", (("int", 1), ("str", "a"))), ("tuple", (("str", "a"),)),
-             ("tuple", (("int", 1), ("int", 2), ("int", 3))), ("tuple", (("bool", True),)), ("tuple", (("none",), ("str", "")))]
+             ("tuple", (("int", 1), ("int", 2), ("int", 3))), ("tuple", (("none",), ("str", "")))]
     return objs
 
 
@@ -1333,7 +1333,7 @@ def run(tier: str, replay: str | None = None):
             return not collection_sval(sv) or collection_leaf(l)
 
         cases += [((sv,), l) for sv in svals for l in leaves if tier == "thorough" or in_quick(sv, l)]
-        n_rand = 800 if tier == "quick" else 40000
+        n_rand = 500 if tier == "quick" else 40000
         for _ in range(n_rand):
             cases.append((gen_value(rng, svals), gen_cond(rng, leaves, 2)))
     objs = universe_objects()
@@ -1357,23 +1357,28 @@ def run(tier: str, replay: str | None = None):
         # the clauses that depend on the object only are evaluated once (UNIV_INFO is a value)
         ulist = ("Definition UNIV : list obj := " + lib.clist([lit_coq(o) for o in objs]) + ".\n"
                  "Definition UNIV_INFO := Eval vm_compute in map (fun o => (o, (subclass_bool o, multiple_inheritance o, wf_obj o))) UNIV.\n")
-        terms = []
-        for v, c in cases:
-            terms.append(
-                f"(let V := {value_coq(v)} in let c := {cond_coq(c)} in "
-                "let Np := narrow V c true in let Nn := narrow V c false in "
-                "(Np, Nn, boolab_of V, map (fun (oi : obj * (bool * bool * bool)) => let '(o, (sb, mi, wf)) := oi in "
-                "let h := holds c o in let pn := promotion_negative c o in let ec := enum_class_object o in "
-                "let ss := sequence_pattern_str c o in let ap := assert_promotion c o in pack "
-                "[member o V; match h with Some b => b | None => false end; "
-                "match h with Some _ => true | None => false end; "
-                "member o Np; member o Nn; pn; sb; mi; ec; ss; ap; "
-                "wf && cond_ok c o && negb mi && negb sb && negb pn && negb ec && negb ss && negb ap]) UNIV_INFO))"
-            )
+        FULL_TAIL = ("map (fun (oi : obj * (bool * bool * bool)) => let '(o, (sb, mi, wf)) := oi in "
+                     "let h := holds c o in let pn := promotion_negative c o in let ec := enum_class_object o in "
+                     "let ss := sequence_pattern_str c o in let ap := assert_promotion c o in pack "
+                     "[member o V; match h with Some b => b | None => false end; "
+                     "match h with Some _ => true | None => false end; "
+                     "member o Np; member o Nn; pn; sb; mi; ec; ss; ap; "
+                     "wf && cond_ok c o && negb mi && negb sb && negb pn && negb ec && negb ss && negb ap]) UNIV_INFO")
+
+        def model_term(v, c, full):
+            return (f"(let V := {value_coq(v)} in let c := {cond_coq(c)} in "
+                    "let Np := narrow V c true in let Nn := narrow V c false in "
+                    "(Np, Nn, boolab_of V, " + (FULL_TAIL if full else "@nil N") + "))")
+
+        # every case: both narrowed values and the boolability; the per-object facts (spec vs CPython,
+        # guard clauses) for every case in the thorough tier / a replay, for 1 case in 5 in the quick
+        # tier, and afterwards (second batch) for every case on which the oracle found a failure
+        full_idx = set(i for i in range(len(cases)) if tier != "quick" or replay or i % 5 == 0)
+        terms = [model_term(v, c, i in full_idx) for i, (v, c) in enumerate(cases)]
 
         def _eval_model():
             try:
-                model_box["model"] = norm(lib.coq_eval(COQ_HEADER + ulist, terms, name="c02", shard=150, jobs=6))
+                model_box["model"] = norm(lib.coq_eval(COQ_HEADER + ulist, terms, name="c02", shard=150, jobs=5))
             except Exception as ex:  # reported after the join
                 model_box["error"] = str(ex)
 
@@ -1396,12 +1401,34 @@ def run(tier: str, replay: str | None = None):
             boolab.append(("CRASH:" + repr(ex), False, False))
     _t["api"] = _time.time()
     srcs = {}
+    import zlib
+
+    def e2e_wanted(i, v, c):
+        # quick tier: every match / assert / len / composite case goes end to end, the other
+        # (single value, leaf) pairs only with probability 1/2 (deterministic in the case)
+        if tier != "quick" or replay or len(v) > 1 or c[0] in ("pat", "assertinst", "assertis", "hasattr", "len", "rlen", "not", "and", "or", "matchclass"):
+            return True
+        return zlib.crc32(repr((lib.seed(), v, c)).encode()) % 2 == 0
+
     for i, (v, c) in enumerate(cases):
+        if not e2e_wanted(i, v, c):
+            continue
         s = case_src(i, v, c)
         if s is not None:
             srcs[i] = s
     try:
-        e2e = impl_e2e(srcs)
+        # three worker processes (fork), each annotating its share of the generated modules
+        import multiprocessing as _mp
+
+        items = sorted(srcs.items())
+        parts = [dict(items[k::3]) for k in range(3)] if len(items) > 300 else [dict(items)]
+        if len(parts) == 1:
+            e2e = impl_e2e(parts[0])
+        else:
+            with _mp.get_context("fork").Pool(3) as pool:
+                e2e = {}
+                for part in pool.map(impl_e2e, parts):
+                    e2e.update(part)
     except Exception as ex:
         e2e = {}
         rep.violation({"kind": "broken-correspondence", "correspondence": "Model.narrow vs annotate_code (end to end)", "detail": repr(ex)[-1500:]}, no_failing_input=True)
@@ -1435,7 +1462,7 @@ def run(tier: str, replay: str | None = None):
             mt = model[i]
             m = [model_value(mt[0]), model_value(mt[1])]
             mboolab = mt[2]
-            mobj = [unpack(x) for x in mt[3]]
+            mobj = [unpack(x) for x in mt[3]] if mt[3] else None
         a0, a1 = api[i]
         if isinstance(a0, frozenset) and isinstance(a1, frozenset):
             key = "both_never" if not a0 and not a1 else "pos_never" if not a0 else "neg_never" if not a1 else "both_nonempty"
@@ -1461,7 +1488,7 @@ def run(tier: str, replay: str | None = None):
                     # same members among the universe objects
                     if m is not None:
                         ext_i = [py_member(o, tuple(out)) for o in pyobjs]
-                        ext_m = [mo[2][0 if pol else 1] for mo in mobj]
+                        ext_m = [py_member(o, tuple(m[0 if pol else 1])) for o in pyobjs]
                         tst = tested_of(c)
                         extra_ok = all(a == b or (a and not b and py_member(o, tst)) for a, b, o in zip(ext_i, ext_m, pyobjs))
                         if not extra_ok:
@@ -1479,7 +1506,7 @@ def run(tier: str, replay: str | None = None):
                 h = py_holds(c, o)
             except Raises:
                 h = None
-            if m is not None:
+            if m is not None and mobj is not None:
                 mo = mobj[j]
                 mh = None if mo[1] is None else mo[1][1]
                 if mo[0] != inV or mh != h:
@@ -1511,10 +1538,20 @@ def run(tier: str, replay: str | None = None):
         p.update(extra)
         return p
 
+    if model is not None:
+        need = sorted(set(i for (i, _r, _p, _j, kind) in failing if kind in ("lost", "always_true_wrong") and not model[i][3]))
+        if need:
+            try:
+                extra = norm(lib.coq_eval(COQ_HEADER + ulist, [model_term(cases[i][0], cases[i][1], True) for i in need], name="c02b", shard=150, jobs=6))
+                for i, r in zip(need, extra):
+                    model[i] = r
+            except RuntimeError as ex:
+                rep.violation({"kind": "broken-correspondence", "correspondence": "Model.narrow (second evaluation failed)", "detail": str(ex)[-1500:]}, no_failing_input=True)
+
     new_failures = []
     for (i, rname, pol, j, kind) in failing:
         attributed = None
-        if model is not None and kind in ("lost", "always_true_wrong"):
+        if model is not None and kind in ("lost", "always_true_wrong") and model[i][3]:
             mo = unpack(model[i][3][j])
             clauses = dict(zip(("promotion_negative", "subclass_bool", "multiple_inheritance", "enum_class_object", "sequence_pattern_str", "assert_promotion"), mo[3]))
             if kind == "lost":
@@ -1581,7 +1618,7 @@ def run(tier: str, replay: str | None = None):
         correspondence_mismatches=len(corr),
         oracle_failures_unattributed=len(new_failures),
         oracle_failures_attributed={k: True for k in known_hits},
-        spec_vs_cpython_pairs=len(cases) * len(objs) if model is not None else 0,
+        spec_vs_cpython_pairs=len(full_idx) * len(objs) if model is not None else 0,
         exhaustive=(tier == "thorough" and not replay),
         stage_seconds={"impl_api": round(_t["api"] - _t["start"], 1), "impl_e2e": round(_t["e2e"] - _t["api"], 1),
                        "model_vm_compute": round(_t["model"] - _t["e2e"], 1), "oracle_and_verdicts": round(_time.time() - _t["model"], 1)},
